@@ -3,7 +3,9 @@
    cut at the assignments of ki_ki / evec2 / eval1, as FOUR stage kernels (eig_pivot, eig_gs, eig_wilkinson, eig_vectors).
    eig_compose chains the four stage kernels exactly as the routine's data flow does; the theorems of proofs/L_C12_Defl.v are about
    eig_compose at T := R.  (eig_compose = eig_deflate holds by conversion -- `reflexivity` succeeds, but needs 3 minutes, so the
-   equality is checked on every run by executing both at binary64 on the harness inputs, bit for bit, instead.) *)
+   equality is checked on every run by executing both at binary64 on the harness inputs, bit for bit, instead.)
+   Since /repo e63b801 eig_vectors contains the scaling of (fac1, fac2) by facmax and the both_zero test on the scaled pair; the chaining
+   below is unchanged (same live variables at the cuts). *)
 From Coq Require Import Reals.
 From OV.base Require Import Num.
 From OV.gen Require Import Gen_Math Gen_TensorMathEig.
